@@ -52,7 +52,7 @@ def cases(draw):
                 body += draw(st.sampled_from(["; comment", ";", " ; X1 Y2 *5"]))
             lines.append(body)
         elif item[0] == "at":
-            lines.append("@%s %s" % (item[1], item[2]) if item[2] else "@" + item[1])
+            lines.append(draw(st.sampled_from(["", "", " ", "  "])) + ("@%s %s" % (item[1], item[2]) if item[2] else "@" + item[1]))
     text = []
     for i, ln in enumerate(lines):
         e = eol if not mixed else draw(st.sampled_from(["\n", "\r\n"]))
